@@ -79,7 +79,10 @@ impl ThreadKey {
 		// safety: if this code changes, check to ensure the requirement for
 		//         the Drop implementation is still true
 		KEY.with(|key| {
-			key.try_lock().then_some(Self {
+			// `then_some` would build (and, on failure, drop) a `ThreadKey`
+			// eagerly; dropping it unlocks the cell while the real key is
+			// still alive, so the value must only be created on success
+			key.try_lock().then(|| Self {
 				phantom: PhantomData,
 			})
 		})
